@@ -296,6 +296,34 @@ def main(tier, seed):
     rep.corr["registry_live"] = dict(cases=ctor_cases, disagreements=reg_problems, identifiers=len(candidates),
                                      non_keys=len(non_keys), constructors=[c for c, _ in MODEL_CTORS] + ["OPF"])
 
+    # ---- (d') the identifier still resolves to its registered function after the documented save -> load route
+    import opfython.core.opf as opfmod
+    sl_dir = os.path.join(BUILD, "c06_tmp")
+    os.makedirs(sl_dir, exist_ok=True)
+    sl_bad = 0
+    for k in sorted(D):
+        f = os.path.join(sl_dir, "m.pkl")
+        try:
+            a = opfmod.OPF(distance=k)
+            a.save(f)
+            other = "euclidean" if k != "euclidean" else "manhattan"
+            b = opfmod.OPF(distance=other)
+            b.load(f)
+            ok = (b.distance == k and b.distance_fn is D[k] and a.distance_fn is D[k])
+        except Exception as ex:   # noqa
+            ok = False
+        if not ok:
+            sl_bad += 1
+            if sl_bad <= 2:
+                rep.violation("after OPF(distance=%r).save(f); OPF(distance=%r).load(f) the loaded object's distance / distance_fn is %r / %s, not the registered function of %r"
+                              % (k, other, getattr(b, "distance", None), getattr(getattr(b, "distance_fn", None), "__name__", None), k),
+                              dict(kind="registry", identifier=k, route="save/load", loaded_into=other), key="registry:saveload")
+    try:
+        os.unlink(os.path.join(sl_dir, "m.pkl"))
+    except OSError:
+        pass
+    rep.corr["registry_save_load"] = dict(cases=len(D), disagreements=sl_bad)
+
     # ---- (b) + (c): per metric --------------------------------------------------------------
     reps = 1 if tier == "quick" else 40
     stats = dict(compared_ref=0, compared_ir=0, via_models=0, skipped_domain=0, skipped_ill_conditioned=0,
